@@ -280,6 +280,28 @@ def auth_environ_table(repo):
         raise Unsupported("_handle_request: credential part (login = password = '' ... user = self._auth.login) not found")
     keys, passed, other = _environ_uses(fn.body[a:b + 1])
     rows.append(("radicale/app/__init__.py:_handle_request:credentials", keys + other, passed, []))
+    # the built-in server: what the WSGI environ of a request starts from (wsgiref merges `os_environ` into every
+    # request's environ; the inherited default is a snapshot of the PROCESS environment) and what get_environ adds
+    with open(os.path.join(repo, "radicale/server.py")) as fh:
+        tree = ast.parse(fh.read())
+    os_env, body = ["<not overridden: wsgiref's snapshot of os.environ>"], []
+    for n in ast.walk(tree):
+        if isinstance(n, ast.ClassDef) and n.name == "ServerHandler":
+            for st in n.body:
+                tg = None
+                if isinstance(st, ast.AnnAssign) and isinstance(st.target, ast.Name):
+                    tg, val = st.target.id, st.value
+                elif isinstance(st, ast.Assign) and len(st.targets) == 1 and isinstance(st.targets[0], ast.Name):
+                    tg, val = st.targets[0].id, st.value
+                if tg == "os_environ":
+                    os_env = [" ".join(ast.unparse(val).split()) if val is not None else "<no value>"]
+        if isinstance(n, ast.ClassDef) and n.name == "RequestHandler":
+            for f in n.body:
+                if isinstance(f, ast.FunctionDef) and f.name == "get_environ":
+                    sk = []
+                    _skel(f.body, 0, sk)
+                    body = sk
+    rows.append(("radicale/server.py:ServerHandler.os_environ", os_env, [], body))
     return rows
 
 
